@@ -38,6 +38,8 @@ DEFAULTS = {"cls": "RandomSearch", "nobj": 1, "kind": "str", "policy": "min", "s
             "strategy": "cl_max", "max_failures": 100}
 STRATEGIES = ["cl_max", "cl_min", "cl_mean", "qUCB"]  # topk / boltzmann are C02's subject
 KINDS = ["str", "nan", "inf", "-inf", "nan-in-tuple"]
+# the same failures carried by NumPy types / other return forms (only the Python type differs)
+KINDS_NP = ["nan32-in-tuple", "inf16-in-dict", "nan32-in-dict", "-inf64-in-list"]
 POLICY_MAP = {"min": "max", "mean": "mean", "ignore": "ignore"}
 
 # --------------------------------------------------------------------------- helpers
@@ -86,6 +88,16 @@ def valid_config(cfg):
 def failure_value(kind, nobj, v, label="F_x"):
     if kind == "str":
         return label
+    if kind in KINDS_NP:
+        bad = {"nan32-in-tuple": np.float32("nan"), "inf16-in-dict": np.float16("inf"), "nan32-in-dict": np.float32("nan"),
+               "-inf64-in-list": np.float64("-inf")}[kind]
+        if nobj > 1:
+            xs = [np.float32(v)] * nobj
+            xs[0] = bad
+            obj = list(xs) if kind.endswith("list") else tuple(xs)
+        else:
+            obj = bad
+        return {"objective": obj} if kind.endswith("dict") or nobj == 1 else obj
     if kind == "nan-in-tuple" and nobj > 1:
         xs = [v] * nobj
         xs[-1] = float("nan")
@@ -293,6 +305,25 @@ def fingerprint(case, clause):
 # --------------------------------------------------------------------------- part A: _on_done
 
 
+def typed_numbers(rng=None):
+    """the numeric types a run-function realistically returns, finite and non-finite"""
+    vals = []
+    for ty in (float, np.float64, np.float32, np.float16):
+        for x in (1.5, -0.25, float("nan"), float("inf"), float("-inf")):
+            vals.append(ty(x))
+    vals += [3, -2, True, False, np.int64(4), np.int32(-3), np.int16(2), np.uint8(7)]
+    return vals
+
+
+def typed_outputs():
+    """every value of `typed_numbers` in every return form"""
+    outs = []
+    for v in typed_numbers():
+        outs += [v, (v, 1.0), [2.0, v], (v, v), {"objective": v}, {"objective": (1.0, v), "metadata": {"a": 1}},
+                 {"output": v, "metadata": {}}, {"output": {"objective": [v, 0.5]}, "metadata": {"b": 2}}]
+    return outs
+
+
 def part_ondone(ck, reqs, post):
     from deephyper.evaluator import Evaluator, HPOJob, JobStatus
     from deephyper.evaluator.storage import MemoryStorage
@@ -302,6 +333,13 @@ def part_ondone(ck, reqs, post):
             {"objective": (float("nan"), 1.0)}, {"objective": float("-inf"), "metadata": {"a": 1}},
             {"output": (2.0, float("inf")), "metadata": {}}, {"output": {"objective": float("nan")}},
             (float("nan"), float("nan")), (1.0, "F"), np.float64("nan"), (np.float64(1.0), np.float64("inf"))]
+    raws += typed_outputs()
+    # extreme but finite magnitudes (the sum of the components overflows): successes, in every form
+    for tpl in T.OVERFLOW_TUPLES:
+        raws += [tpl, list(tpl), {"objective": tpl}, {"objective": list(tpl), "metadata": {"a": 1}}, {"output": tpl, "metadata": {}},
+                 {"output": {"objective": tpl}}]
+    for v in T.EXTREMES:
+        raws += [v, (v, 1.0), {"objective": v}, {"output": v, "metadata": {}}]
     for _ in range(ck.pick(150, 1500)):
         m = rng.choice([1, 2, 3])
         obj, _k = T.gen_objective(rng, m, 0.6, ["str", "nonfin", "nonfin-in-tuple"])
@@ -329,6 +367,11 @@ def part_ondone(ck, reqs, post):
         kind = _failure_kind(exp)
         ck.case(case, nontrivial=kind != "success")
         ck.count("ondone:" + kind)
+        for tname in _types_in(raw):
+            ck.count("ondone:type=" + tname)
+        if got["err"] is None and kind == "success" and isinstance(job.objective, str) and not isinstance(exp, str):
+            ck.fail(f"{PROP}|finite-objective-marked-as-failure|Evaluator._on_done|{'tuple' if isinstance(exp, (tuple, list)) else 'scalar'}",
+                    "_on_done turns a finite objective into the failure marker", case, {"returned": repr(exp), "objective_after": job.objective})
         if got["err"] is None and kind != "success":
             o = job.objective
             if not (isinstance(o, str) and o.startswith("F")):
@@ -340,8 +383,12 @@ def part_ondone(ck, reqs, post):
 
 def _plain(v):
     """numpy scalars -> Python numbers (for encoding only)"""
+    if isinstance(v, (bool, np.bool_)):
+        return int(v)
     if isinstance(v, np.generic):
-        return v.item()
+        return _plain(v.item())
+    if isinstance(v, np.ndarray) and v.ndim == 0:
+        return _plain(v.item())
     if isinstance(v, tuple):
         return tuple(_plain(x) for x in v)
     if isinstance(v, list):
@@ -349,6 +396,16 @@ def _plain(v):
     if isinstance(v, dict):
         return {k: _plain(x) for k, x in v.items()}
     return v
+
+
+def _types_in(v):
+    if isinstance(v, dict):
+        return set().union(*[_types_in(x) for x in v.values()]) if v else set()
+    if isinstance(v, (tuple, list)):
+        return set().union(*[_types_in(x) for x in v]) if v else set()
+    if isinstance(v, (int, float, bool, np.generic)):
+        return {type(v).__name__}
+    return set()
 
 
 def _failure_kind(o):
@@ -359,7 +416,7 @@ def _failure_kind(o):
     if isinstance(o, (tuple, list)):
         if any(isinstance(x, (int, float)) and not math.isfinite(x) for x in o):
             return "nonfinite-in-tuple"
-    return "success"
+    return "success"  # (numpy scalars and bools have been converted by _plain before)
 
 
 # --------------------------------------------------------------------------- part B/C: CBO._tell, _filter_failures
@@ -551,7 +608,7 @@ def part_surrogate(ck, reqs, post):
     n = ck.pick(60, 800)
     for t in range(n):
         nobj = rng.choice([1, 1, 2])
-        kind = rng.choice(KINDS if nobj > 1 else KINDS[:4])
+        kind = rng.choice((KINDS if nobj > 1 else KINDS[:4]) + KINDS_NP)
         pol = rng.choice(["min", "mean", "ignore"])
         L = rng.randint(3, 8)
         pattern = [1 if rng.random() < rng.choice([0.3, 0.6, 0.8]) else 0 for _ in range(L)]
@@ -722,6 +779,18 @@ def gen_matrix(ck):
                             cases.append({"cls": "CBO", "nobj": nobj, "kind": kind, "policy": pol, "surrogate": sm,
                                           "workers": workers, "pattern": pattern, "seed": rng.randint(0, 99), "n_init": rng.choice([1, 2, 3]),
                                           "strategy": rng.choice(STRATEGIES) if workers > 1 else "cl_max"})
+    # (2a) the failure kinds carried by NumPy types (float32 / float16 / float64) in tuples, lists, dict outputs
+    for _ in range(ck.pick(1, 6)):
+        for kind in KINDS_NP:
+            for nobj in (1, 2):
+                for cls in ("CBO", "RandomSearch"):
+                    L = rng.randint(3, 6)
+                    pattern = [0 if rng.random() < 0.5 else 1 for _ in range(L)]
+                    if all(pattern):
+                        pattern[rng.randrange(L)] = 0
+                    cases.append({"cls": cls, "nobj": nobj, "kind": kind, "policy": rng.choice(["min", "mean", "ignore"]),
+                                  "surrogate": "ET", "workers": rng.choice([1, 2]), "pattern": pattern, "seed": rng.randint(0, 99),
+                                  "n_init": rng.choice([1, 2]), "strategy": "cl_max"})
     # (2b) max_failures reached and exceeded: failures only, and a success followed by >= max_failures failures
     for _ in range(ck.pick(8, 60)):
         mf = rng.choice([1, 2, 3])
